@@ -43,6 +43,56 @@ def main():
                                       f"(cumsum ends at {np.cumsum(w)[-1]!r}) and uniform draw {draw!r}: {err}",
                                       "input": {"weights": w.tolist(), "scheme": scheme, "draw": draw}}))
                     return
+    # systematic scheme at the Resampler level: floor/ceil copies for every piece of the offset, and E[copies] = n * w_i exactly
+    # (the behaviour in u0 is piecewise constant: breakpoints u0 = n * c_k - i; every open piece is probed at its midpoint and
+    # weighted by its length).  Includes pools of exactly n particles with weights equal only up to 1e-5 relative.
+    rng = np.random.RandomState(3)
+    pools = []
+    for n in (8, 16):
+        base = np.full(n, 1.0 / n)
+        pools.append((n, base * (1 + 8e-6 * np.where(np.arange(n) % 2 == 0, 1.0, -1.0))))
+        pools.append((n, rng.dirichlet(np.ones(n) * 2.0)))
+        pools.append((n, rng.dirichlet(np.ones(3 * n))))
+    for n, w in pools:
+        w = w / w.sum()
+        N = len(w)
+        c = np.cumsum(w)
+        cuts = sorted({float(x) for x in (n * c[:, None] - np.arange(n)[None, :]).ravel() if 0.0 < x < 1.0} | {0.0, 1.0})
+        exp_copies = np.zeros(N)
+        for lo, hi in zip(cuts[:-1], cuts[1:]):
+            if hi - lo < 1e-13:
+                continue
+            u0 = 0.5 * (lo + hi)
+            st = state(N)
+            uh = st.get_history("u", flat=True)
+            np.random.random = lambda *a, **k: (np.full(a[0], u0) if a else u0)
+            np.random.rand = lambda *a: (np.full(a, u0) if a else u0)
+            tried += 1
+            try:
+                Resampler(st, n, "syst", None, False, False).run(w.copy())
+                u = st.get_current("u")
+            except Exception as e:
+                print(json.dumps({"reproduced": True, "tried": tried, "detail": f"Resampler.run('syst') raised {type(e).__name__}: {e}",
+                                  "input": {"weights": w.tolist(), "u0": u0}}))
+                return
+            finally:
+                np.random.random, np.random.rand = o_random, o_rand
+            idx = np.array([int(np.argmin(np.abs(uh - row).sum(axis=1))) for row in u])
+            copies = np.bincount(idx, minlength=N)
+            nw = n * w
+            bad = np.where((copies < np.floor(nw - 1e-9)) | (copies > np.ceil(nw + 1e-9)))[0]
+            if len(u) != n or len(bad):
+                print(json.dumps({"reproduced": True, "tried": tried, "detail": f"Resampler.run('syst'), offset {u0!r}: {int(copies[bad[0]]) if len(bad) else len(u)} copies of "
+                                  f"history particle {int(bad[0]) if len(bad) else -1}, n*w = {float(nw[bad[0]]) if len(bad) else n}: not floor/ceil",
+                                  "input": {"weights": w.tolist(), "u0": u0}}))
+                return
+            exp_copies += (hi - lo) * copies
+        dev = np.abs(exp_copies - n * w)
+        if dev.max() > 1e-7:
+            i = int(np.argmax(dev))
+            print(json.dumps({"reproduced": True, "tried": tried, "detail": f"Resampler.run('syst') is biased: E[copies of particle {i}] over the offset = {exp_copies[i]!r}, "
+                              f"n*w_i = {float(n * w[i])!r} (pool of {N}, n = {n})", "input": {"weights": w.tolist()}}))
+            return
     print(json.dumps({"reproduced": False, "tried": tried, "detail": "no failing input"}))
 
 
